@@ -110,7 +110,12 @@ def explore_steps(pr, repo, check, tags=TAGS, names=NAMES, shapes=SHAPES, chains
                                 import ast as _a
                                 assigned = {t.id for n in _a.walk(spec.node) if isinstance(n, (_a.Assign, _a.AugAssign))
                                             for t in (n.targets if isinstance(n, _a.Assign) else [n.target]) if isinstance(t, _a.Name)}
-                                state = {v for v in assigned if v in env.local}
+                                # locals mutated in place inside the loop (x.add(..), x.append(..) ...) are loop state too
+                                mutated = {n.func.value.id for n in _a.walk(spec.node) if isinstance(n, _a.Call)
+                                           and isinstance(n.func, _a.Attribute) and isinstance(n.func.value, _a.Name)
+                                           and n.func.attr in ('add', 'discard', 'remove', 'append', 'extend', 'pop', 'clear', 'update',
+                                                               'insert', 'setdefault', 'popitem')}
+                                state = {v for v in (assigned | mutated) if v in env.local}
                                 if state != {'nterm_residue', 'old_residue', 'terminal', 'model'}:
                                     raise KeyError('loop state variables of get_atom_lines_from_pdb are %s' % sorted(state))
                                 ctx_.oblige('reader loop: invariant "terminal is None" holds at loop entry',
@@ -266,3 +271,9 @@ def check_transition(step, label='TR'):
         conj.append(step.how != 'break')          # no record ends the loop early (records after it would be lost)
         ctx.oblige('%s[%s]: state and output of one record == record automaton of the specification; the loop goes on to the next '
                    'record' % (label, tagname), Implies(cond, And(*conj)))
+
+
+def task_nterm(pr, repo):
+    """The N-terminus tagging steps of the record automaton only (ATOM records named N, every loop-state shape)."""
+    explore_steps(pr, repo, check_transition, tags=['ATOM  '], names=[' N  ', ' OXT'], chains_cases=(None,),
+                  keep_protons_cases=(False,), what='N-/C-terminus tagging step')
